@@ -8,6 +8,7 @@
 -/
 import KiraModel.Proofs.RealOps
 import KiraModel.Model.RendererFinal
+import KiraModel.Props.C01_system
 import Mathlib.Tactic.Linarith
 import Mathlib.Tactic.NormNum
 
